@@ -100,6 +100,13 @@ class Link:
         t = max(self.net.loop._vtime + self.latency, self._s2c_last)
         self.net.loop.sim_at(t, self._deliver_fin)
 
+    def fin_now(self) -> None:
+        """Peer FIN delivered without link latency (the peer closed while accepting)."""
+        if self.server_closed:
+            return
+        self.server_closed = True
+        self._deliver_fin()
+
     def _deliver_fin(self) -> None:
         tr = self.transport
         if self.blackhole or tr is None or tr._conn_lost or tr._closing:
@@ -394,6 +401,7 @@ class SimNet:
         self.write_count = 0
         self.write_faults: list[list] = []  # [[countdown, err], ...]
         self.stall_new_links: list[float] = []  # durations: the next accepted links start stalled
+        self.fin_new_links: list[float] = []  # delays: the next accepted links are closed by the peer right away
         self.faults_fired: dict[str, int] = {}
         self.violations: list[dict] = []
         self.udp: list = []
@@ -467,6 +475,11 @@ class SimNet:
             protocol.connection_made(transport)
             link.made = True
             self.trace.add("conn.made", link=link.id)
+            if self.fin_new_links:
+                d = self.fin_new_links.pop(0)
+                self.trace.add("fault.fired", k="tcp.peer_fin", link=link.id)
+                self.fired("tcp.peer_fin")
+                loop.sim_after(d, link.fin_now)
             if self.stall_new_links:
                 # flow control from the first byte: the peer's window is closed for a while
                 dur = self.stall_new_links.pop(0)
